@@ -189,6 +189,8 @@ type Host struct {
 	Entry      int
 	EntryJunk  int
 	Reattached int
+	// ReattachStep: the step count at the (last) reattach() call
+	ReattachStep int64
 	// ExtraStep, when set, is called at every instruction boundary after the harness's own bookkeeping (scheduler pre-emption point).
 	ExtraStep func(L *lua.LState)
 }
@@ -214,6 +216,9 @@ type Options struct {
 	// context by a fresh one, as a host function that calls L.SetContext in mid-run would; the simulator then
 	// fires the new one.
 	ReattachAtHostCall int64
+	// BackgroundFirst: the state starts under context.Background() (whose Done channel is nil); the program's
+	// first statement must be reattach(), which attaches the simulated context in mid-run.
+	BackgroundFirst bool
 }
 
 func defaultLuaOptions() lua.Options {
@@ -259,7 +264,11 @@ func NewHost(o Options) *Host {
 	h := &Host{L: L, ids: map[lua.LValue]int{}, MaxSteps: o.MaxSteps, Kind: o.Kind, At: o.At, TrackLimits: o.TrackLimits, reattachAt: o.ReattachAtHostCall}
 	if o.WithContext && !o.OnThread {
 		h.Ctx = NewSimContext()
-		L.SetContext(h.Ctx)
+		if o.BackgroundFirst {
+			L.SetContext(context.Background())
+		} else {
+			L.SetContext(h.Ctx)
+		}
 	}
 	lua.VerifSetStepHook(L, h.onStep)
 	lua.VerifSetDispatchHook(L, h.onDispatch)
@@ -277,6 +286,7 @@ func NewHost(o Options) *Host {
 			h.Ctx = NewSimContext()
 			L.SetContext(h.Ctx)
 			h.Reattached++
+			h.ReattachStep = h.Steps
 		}
 		return 0
 	}))
